@@ -44,145 +44,178 @@ func raceMode(a map[string]string) {
 	var bad int64
 	r0 := newRng(uint64(seed))
 	for round := 0; round < argInt(a, "rounds", 4); round++ {
-		for _, kind := range []string{"cache", "cacheof", "map", "mapof"} {
-			ng := []int{2, 4, 8, 16, 64}[r0.intn(5)]
-			nkeys := []int{4, 40, 400, 4000}[r0.intn(4)]
-			var wg sync.WaitGroup
-			stop := make(chan struct{})
-			isCache := kind == "cache" || kind == "cacheof"
-			var c cacheAPI
-			var m mapAPI
-			if isCache {
-				cb := func(k string, v interface{}) { checkPayload(v, "callback", &bad) }
-				if kind == "cache" {
-					c = plain{cache.New(cache.WithCleanupInterval(time.Millisecond), cache.WithDefaultExpiration(2*time.Millisecond), cache.WithEvictedCallback(cb), cache.WithMinCapacity(1))}
-				} else {
-					c = generic{cache.NewOf[string, interface{}](cache.WithCleanupIntervalOf[string, interface{}](time.Millisecond),
-						cache.WithDefaultExpirationOf[string, interface{}](2*time.Millisecond), cache.WithEvictedCallbackOf[string, interface{}](cb), cache.WithMinCapacityOf[string, interface{}](1))}
+		// the four containers of a round run at the same time (state shared between containers - package-level
+		// variables, the seed source - is exercised too), next to a goroutine that keeps creating, growing and
+		// clearing short-lived containers
+		var outer sync.WaitGroup
+		churnStop := make(chan struct{})
+		outer.Add(1)
+		go func() {
+			defer outer.Done()
+			for i := 0; ; i++ {
+				select {
+				case <-churnStop:
+					return
+				default:
 				}
-			} else {
-				m = newMapInst(kind, -999999, false, false)
+				mm := newMapInst([]string{"map", "mapof"}[i%2], -999999, false, false)
+				for j := 0; j < 200; j++ {
+					mm.Store(fmt.Sprint("c", j), j)
+				}
+				mm.Clear()
+				cc := cache.New(cache.WithCleanupInterval(0))
+				cc.Set("x", i, time.Hour)
+				cc.Clear()
 			}
-			for gi := 0; gi < ng; gi++ {
-				wg.Add(1)
-				go func(gi int) {
-					defer wg.Done()
-					r := newRng(uint64(seed*1000 + round*100 + gi))
-					n := gi * 1_000_000
-					for {
-						select {
-						case <-stop:
-							return
-						default:
-						}
-						n++
-						k := fmt.Sprintf("k%d", r.intn(nkeys))
-						if isCache {
-							d := []time.Duration{cache.DefaultExpiration, cache.NoExpiration, time.Millisecond, time.Hour}[r.intn(4)]
-							switch r.intn(22) {
-							case 0, 1, 2:
-								c.Set(k, newPayload(n), d)
-							case 3, 4, 5:
-								v, _ := c.Get(k)
-								checkPayload(v, "Get", &bad)
-							case 6:
-								v, _, _ := c.GetWithExpiration(k)
-								checkPayload(v, "GetWithExpiration", &bad)
-							case 7:
-								v, _, _ := c.GetWithTTL(k)
-								checkPayload(v, "GetWithTTL", &bad)
-							case 8:
-								v, _ := c.GetOrSet(k, newPayload(n), d)
-								checkPayload(v, "GetOrSet", &bad)
-							case 9:
-								v, _ := c.GetAndSet(k, newPayload(n), d)
-								checkPayload(v, "GetAndSet", &bad)
-							case 10:
-								v, _ := c.GetAndRefresh(k, d)
-								checkPayload(v, "GetAndRefresh", &bad)
-							case 11:
-								v, _ := c.GetOrCompute(k, func() interface{} { return newPayload(n) }, d)
-								checkPayload(v, "GetOrCompute", &bad)
-							case 12:
-								v, _ := c.Compute(k, func(old interface{}, ok bool) (interface{}, bool) {
-									checkPayload(old, "Compute-old", &bad)
-									return newPayload(n), n%5 == 0
-								}, d)
-								checkPayload(v, "Compute", &bad)
-							case 13:
-								v, _ := c.GetAndDelete(k)
-								checkPayload(v, "GetAndDelete", &bad)
-							case 14:
-								c.Delete(k)
-							case 15:
-								c.DeleteExpired()
-							case 16:
-								c.Range(func(k string, v interface{}) bool { checkPayload(v, "Range", &bad); return true })
-							case 17:
-								for _, v := range c.Items() {
-									checkPayload(v, "Items", &bad)
-								}
-							case 18:
-								c.SetDefaultExpiration([]time.Duration{time.Millisecond, time.Hour, 0}[r.intn(3)])
-								_ = c.DefaultExpiration()
-							case 19:
-								if r.chance(1, 2) {
-									c.SetCallback(func(k string, v interface{}) { checkPayload(v, "callback2", &bad) })
-								} else {
-									c.SetCallback(nil)
-								}
-								_ = c.HasCallback()
-							case 20:
-								_ = c.Count()
-							case 21:
-								if r.chance(1, 50) {
-									c.Clear()
-								}
-							}
-						} else {
-							switch r.intn(14) {
-							case 0, 1, 2:
-								m.Store(k, newPayload(n))
-							case 3, 4, 5:
-								v, _ := m.Load(k)
-								checkPayload(v, "Load", &bad)
-							case 6:
-								v, _ := m.LoadOrStore(k, newPayload(n))
-								checkPayload(v, "LoadOrStore", &bad)
-							case 7:
-								v, _ := m.LoadAndStore(k, newPayload(n))
-								checkPayload(v, "LoadAndStore", &bad)
-							case 8:
-								v, _ := m.LoadOrCompute(k, func() interface{} { return newPayload(n) })
-								checkPayload(v, "LoadOrCompute", &bad)
-							case 9:
-								v, _ := m.Compute(k, func(old interface{}, ok bool) (interface{}, bool) {
-									checkPayload(old, "Compute-old", &bad)
-									return newPayload(n), n%5 == 0
-								})
-								checkPayload(v, "Compute", &bad)
-							case 10:
-								v, _ := m.LoadAndDelete(k)
-								checkPayload(v, "LoadAndDelete", &bad)
-							case 11:
-								m.Delete(k)
-							case 12:
-								m.Range(func(k string, v interface{}) bool { checkPayload(v, "Range", &bad); return true })
-							case 13:
-								_ = m.Size()
-								if r.chance(1, 100) {
-									m.Clear()
-								}
-							}
-						}
+		}()
+		var kindsWg sync.WaitGroup
+		for _, kind := range []string{"cache", "cacheof", "map", "mapof"} {
+			kind := kind
+			ng := []int{2, 4, 8, 16, 32}[r0.intn(5)]
+			nkeys := []int{4, 40, 400, 4000}[r0.intn(4)]
+			kindsWg.Add(1)
+			go func() {
+				defer kindsWg.Done()
+				var wg sync.WaitGroup
+				stop := make(chan struct{})
+				isCache := kind == "cache" || kind == "cacheof"
+				var c cacheAPI
+				var m mapAPI
+				if isCache {
+					cb := func(k string, v interface{}) { checkPayload(v, "callback", &bad) }
+					if kind == "cache" {
+						c = plain{cache.New(cache.WithCleanupInterval(time.Millisecond), cache.WithDefaultExpiration(2*time.Millisecond), cache.WithEvictedCallback(cb), cache.WithMinCapacity(1))}
+					} else {
+						c = generic{cache.NewOf[string, interface{}](cache.WithCleanupIntervalOf[string, interface{}](time.Millisecond),
+							cache.WithDefaultExpirationOf[string, interface{}](2*time.Millisecond), cache.WithEvictedCallbackOf[string, interface{}](cb), cache.WithMinCapacityOf[string, interface{}](1))}
 					}
-				}(gi)
-			}
-			time.Sleep(time.Duration(ms) * time.Millisecond)
-			close(stop)
-			wg.Wait()
-			fmt.Printf("round %d kind=%s goroutines=%d keys=%d done\n", round, kind, ng, nkeys)
+				} else {
+					m = newMapInst(kind, -999999, false, false)
+				}
+				for gi := 0; gi < ng; gi++ {
+					wg.Add(1)
+					go func(gi int) {
+						defer wg.Done()
+						r := newRng(uint64(seed*1000 + round*100 + gi))
+						n := gi * 1_000_000
+						for {
+							select {
+							case <-stop:
+								return
+							default:
+							}
+							n++
+							k := fmt.Sprintf("k%d", r.intn(nkeys))
+							if isCache {
+								d := []time.Duration{cache.DefaultExpiration, cache.NoExpiration, time.Millisecond, time.Hour}[r.intn(4)]
+								switch r.intn(22) {
+								case 0, 1, 2:
+									c.Set(k, newPayload(n), d)
+								case 3, 4, 5:
+									v, _ := c.Get(k)
+									checkPayload(v, "Get", &bad)
+								case 6:
+									v, _, _ := c.GetWithExpiration(k)
+									checkPayload(v, "GetWithExpiration", &bad)
+								case 7:
+									v, _, _ := c.GetWithTTL(k)
+									checkPayload(v, "GetWithTTL", &bad)
+								case 8:
+									v, _ := c.GetOrSet(k, newPayload(n), d)
+									checkPayload(v, "GetOrSet", &bad)
+								case 9:
+									v, _ := c.GetAndSet(k, newPayload(n), d)
+									checkPayload(v, "GetAndSet", &bad)
+								case 10:
+									v, _ := c.GetAndRefresh(k, d)
+									checkPayload(v, "GetAndRefresh", &bad)
+								case 11:
+									v, _ := c.GetOrCompute(k, func() interface{} { return newPayload(n) }, d)
+									checkPayload(v, "GetOrCompute", &bad)
+								case 12:
+									v, _ := c.Compute(k, func(old interface{}, ok bool) (interface{}, bool) {
+										checkPayload(old, "Compute-old", &bad)
+										return newPayload(n), n%5 == 0
+									}, d)
+									checkPayload(v, "Compute", &bad)
+								case 13:
+									v, _ := c.GetAndDelete(k)
+									checkPayload(v, "GetAndDelete", &bad)
+								case 14:
+									c.Delete(k)
+								case 15:
+									c.DeleteExpired()
+								case 16:
+									c.Range(func(k string, v interface{}) bool { checkPayload(v, "Range", &bad); return true })
+								case 17:
+									for _, v := range c.Items() {
+										checkPayload(v, "Items", &bad)
+									}
+								case 18:
+									c.SetDefaultExpiration([]time.Duration{time.Millisecond, time.Hour, 0}[r.intn(3)])
+									_ = c.DefaultExpiration()
+								case 19:
+									if r.chance(1, 2) {
+										c.SetCallback(func(k string, v interface{}) { checkPayload(v, "callback2", &bad) })
+									} else {
+										c.SetCallback(nil)
+									}
+									_ = c.HasCallback()
+								case 20:
+									_ = c.Count()
+								case 21:
+									if r.chance(1, 50) {
+										c.Clear()
+									}
+								}
+							} else {
+								switch r.intn(14) {
+								case 0, 1, 2:
+									m.Store(k, newPayload(n))
+								case 3, 4, 5:
+									v, _ := m.Load(k)
+									checkPayload(v, "Load", &bad)
+								case 6:
+									v, _ := m.LoadOrStore(k, newPayload(n))
+									checkPayload(v, "LoadOrStore", &bad)
+								case 7:
+									v, _ := m.LoadAndStore(k, newPayload(n))
+									checkPayload(v, "LoadAndStore", &bad)
+								case 8:
+									v, _ := m.LoadOrCompute(k, func() interface{} { return newPayload(n) })
+									checkPayload(v, "LoadOrCompute", &bad)
+								case 9:
+									v, _ := m.Compute(k, func(old interface{}, ok bool) (interface{}, bool) {
+										checkPayload(old, "Compute-old", &bad)
+										return newPayload(n), n%5 == 0
+									})
+									checkPayload(v, "Compute", &bad)
+								case 10:
+									v, _ := m.LoadAndDelete(k)
+									checkPayload(v, "LoadAndDelete", &bad)
+								case 11:
+									m.Delete(k)
+								case 12:
+									m.Range(func(k string, v interface{}) bool { checkPayload(v, "Range", &bad); return true })
+								case 13:
+									_ = m.Size()
+									if r.chance(1, 100) {
+										m.Clear()
+									}
+								}
+							}
+						}
+					}(gi)
+				}
+				time.Sleep(time.Duration(ms) * time.Millisecond)
+				close(stop)
+				wg.Wait()
+				fmt.Printf("round %d kind=%s goroutines=%d keys=%d done\n", round, kind, ng, nkeys)
+			}()
 		}
+		kindsWg.Wait()
+		close(churnStop)
+		outer.Wait()
 	}
 	if bad > 0 {
 		os.Exit(3)
